@@ -57,7 +57,7 @@ class RecordingConsumer(object):
 @_implementer(_IConsumer)
 class ScriptedConsumer(RecordingConsumer):
     """consumer whose reaction to every write is a choice point: accept / pause (resume later as a
-    scheduler action) / stopProducing"""
+    scheduler action) / stopProducing; between writes it may stop, or pause-and-resume, as scheduler actions"""
 
     def __init__(self, sched, name):
         RecordingConsumer.__init__(self)
@@ -76,11 +76,20 @@ class ScriptedConsumer(RecordingConsumer):
             self._stop_action = ("stop:" + self.name, stop_now)
             self.sched.extras.append(self._stop_action)
 
+            # ... or pause and resume at once BETWEEN writes (its downstream buffer filled and drained while
+            # the producer was waiting for the network): legal for an IPushProducer at any time; one per read
+            def nudge_now():
+                if self.producer is not None and not self.stopped and not self.paused:
+                    self.producer.pauseProducing()
+                    self.producer.resumeProducing()
+            self._nudge_action = ("nudge:" + self.name, nudge_now)
+            self.sched.extras.append(self._nudge_action)
+
     def unregisterProducer(self):
         RecordingConsumer.unregisterProducer(self)
-        act = getattr(self, "_stop_action", None)
-        if act in self.sched.extras:
-            self.sched.extras.remove(act)
+        for act in (getattr(self, "_stop_action", None), getattr(self, "_nudge_action", None)):
+            if act in self.sched.extras:
+                self.sched.extras.remove(act)
 
     def write(self, data):
         self.chunks.append(bytes(data))
@@ -287,7 +296,8 @@ def run_reads(case, prefix, seed):
     """case keys: k n seg size S; bad_ct (list of segnums); placement {str(shnum): [servers]};
     damage {"sv:shnum": kind}; server_kind {str(sv): kind}; groups [[[offset,size],...],...]
     (reads of one group are started together on ONE node object, groups run one after another);
-    fault_kinds; explore_groups (indexes of groups whose execution is explored)."""
+    fault_kinds; explore_groups (indexes of groups whose execution is explored);
+    fail_after_group {str(sv): g}: server sv answers every call with an error once group g is over."""
     prep = prepare(case["k"], case["n"], case["seg"], case["size"], seed, tuple(case.get("bad_ct", ())))
     data = prep["data"]
     ch = grid.Chooser(prefix)
@@ -313,8 +323,14 @@ def run_reads(case, prefix, seed):
         real_execute = sched._execute
         first_read_seen = set()
 
+        # servers that start failing every call once group number fail_after[sv] is over
+        fail_after = {int(s_): int(gi_) for s_, gi_ in case.get("fail_after_group", {}).items()}
+        current_group = [0]
+
         def _execute(ev):
             kd = skind.get(ev.conn.si, "ok")
+            if ev.conn.si in fail_after and current_group[0] > fail_after[ev.conn.si]:
+                kd = "errors-on-everything"
             if kd == "errors-on-everything" or (kd == "errors-on-read" and ev.meth == "read"):
                 from twisted.python.failure import Failure as _F
                 try:
@@ -336,6 +352,7 @@ def run_reads(case, prefix, seed):
         segsize = ((case["seg"] + case["k"] - 1) // case["k"]) * case["k"]
         bad_ct = set(case.get("bad_ct", ()))
         for gi, group in enumerate(case["groups"]):
+            current_group[0] = gi
             reads = []
             sched.explore = gi in case.get("explore_groups", list(range(len(case["groups"]))))
             for ri, (off, size) in enumerate(group):
@@ -350,7 +367,7 @@ def run_reads(case, prefix, seed):
                 break
             sched.explore = False
             # classification of servers for this execution
-            faulted = set()
+            faulted = set(sv_ for sv_, g_ in fail_after.items() if gi > g_)
             for (kind, label, o) in sched.log:
                 if kind.startswith("fault"):
                     faulted.add(int(label.split("s")[1].split("#")[0]))
